@@ -16,6 +16,8 @@ EPS = np.finfo(float).eps
 # Krylov solve sits at 1e6x
 AMPLIFY = 200.0
 SHIFTS = [-5.0, 1e-3, 1.0, 123.456, 1e4]
+# epoch-like origins (seconds since 1970, 2**31): only meaningful where the step is >= ~0.1, i.e. on the coarse grids
+BIG_SHIFTS = [1.7e9, float(2**31)]
 GRIDS = [("uniform", 20, 2.0), ("quadratic", 25, 3.0), ("geometric", 25, 0), ("irregular", 20, 3.0),
          ("integer", 12, 0), ("drift", 101, 2.0)]
 # non-integer pressures on purpose: an integer-dtype time grid must not leak its dtype into them
@@ -31,6 +33,9 @@ def cases(tier, seed):
         shifts.append(round(1000 * seed_offset(seed), 6) + 0.5)
     out = []
     for (cls, tab, p_f, p_i), nx, (g, n, T), s in itertools.product(CONFIGS, nxs, GRIDS, shifts):
+        out.append({"part": "shift", "cls": cls, "table": tab, "p_f": p_f, "p_i": p_i, "nx": nx,
+                    "grid": g, "n": n, "T": T, "shift": s, "seed": seed})
+    for (cls, tab, p_f, p_i), nx, (g, n, T), s in itertools.product(CONFIGS, nxs[:2], [("integer", 12, 0), ("uniform", 20, 2.0)], BIG_SHIFTS):
         out.append({"part": "shift", "cls": cls, "table": tab, "p_f": p_f, "p_i": p_i, "nx": nx,
                     "grid": g, "n": n, "T": T, "shift": s, "seed": seed})
     for (cls, tab, p_f, p_i), nx, (g, n, T) in itertools.product(CONFIGS, nxs, GRIDS):
@@ -130,15 +135,36 @@ def eval_const(case):
         if not history.same(a.recovery_factor(density=dens), b.recovery_factor(density=dens)):
             viol.append(V("const-schedule/recovery", f"recovery(density={dens}) differs between scalar and "
                           "constant schedule", case=case, tol=0))
-    return {"violations": viol, "states": 2 * len(t), "transitions": 2 * (len(t) - 1), "outcome": "const=scalar"}
+    # a constant schedule at ANOTHER value than the object's own scalar, given as list / integer array / float array:
+    # the result is that of an object whose scalar setting is that value
+    p_lo = tables.table_range(case["table"])[0]
+    other = float(int(max(p_lo + 1.0, 0.5 * (case["p_f"] + p_lo))))  # a whole number of psi, below the own setting
+    ref = sim.make_reservoir("single", case["nx"], other, case["p_i"], case["table"])
+    ref.simulate(t)
+    for form, sched in (("float array", np.full(len(t), other)), ("list", [other] * len(t)),
+                        ("integer array", np.full(len(t), int(other), dtype=np.int64))):
+        c = sim.make_reservoir("single", case["nx"], case["p_f"], case["p_i"], case["table"])
+        c.simulate(t, sched)
+        if not history.same(c.pseudopressure, ref.pseudopressure):
+            viol.append(V("const-schedule/other-value", f"object with scalar setting {case['p_f']} given a constant schedule "
+                          f"of {other} psi as {form}: differs from an object whose scalar setting is {other} (max diff "
+                          f"{np.max(np.abs(np.asarray(c.pseudopressure) - np.asarray(ref.pseudopressure))):.3g})", case=case, tol=0))
+            break
+    return {"violations": viol, "states": 5 * len(t), "transitions": 5 * (len(t) - 1), "outcome": "const=scalar"}
 
 
 def eval_badlen(case):
     t = np.linspace(0.0, 1.0, case["n"])
     r = sim.make_reservoir("single", case["nx"], case["p_f"], case["p_i"], case["table"])
+    r.simulate(np.linspace(0.0, 2.0, 5))  # an earlier, valid run: a rejected call must leave it untouched
+    before = history.canon(r)
     try:
         r.simulate(t, np.full(case["L"], case["p_f"]))
     except ValueError:
+        if history.canon(r) != before:
+            return {"violations": [V("bad-length/left-a-trace", f"the rejected schedule of length {case['L']} for {case['n']} "
+                                     "times changed the object (stored run mixed with the rejected call's arguments)", case=case)],
+                    "states": 1, "transitions": 1, "outcome": "trace"}
         return {"violations": [], "states": 1, "transitions": 1, "outcome": "ValueError"}
     except Exception as e:  # noqa: BLE001
         return {"violations": [V("bad-length/wrong-exception", f"schedule of length {case['L']} for {case['n']} "
